@@ -54,6 +54,17 @@ def run(ctx):
                 C = [r[:] for r in M]
                 C[i][j] = -C[i][j]
                 lines.append("%d %s 0" % (rng.below(2) * 0, mat_line(C, m, n)))
+    # digraphs on graphs glued from 3-connected pieces, polygons and bonds (see C05), random arc orientations
+    for _ in range(2500 if q else 30000):
+        nv, E = gen.glued_graph(rng)
+        M, w = gen.graph_instance(rng, nv, len(E), True, loops=False, edges=E)
+        if not M or not M[0]:
+            continue
+        m, n = len(M), len(M[0])
+        if rng.below(2):
+            lines.append("1 %s %s" % (mat_line(transpose(M, m, n), n, m), w))
+        else:
+            lines.append("0 %s %s" % (mat_line(M, m, n), w))
     cores = [gen.F7, gen.F7T, gen.K33_DUAL]
     for _ in range(300 if q else 3000):
         core = gen.scale(rng, rng.choice(cores))
